@@ -197,6 +197,9 @@ class Executor(object):
         if c[0] == 'bool':
             return 'bool'
         if c[0] == 'named':
+            m = re.search(r'<impl ([ui](?:8|16|32|64|128|size))>::(MAX|MIN)$', c[1])
+            if m:
+                return m.group(1)
             k = c[1].split('::')[-1]
             if k in self.crate.consts:
                 return self.crate.consts[k][0]
@@ -288,6 +291,15 @@ class Executor(object):
         if k == 'zst':
             return ('closure', c[1])
         if k == 'named':
+            m = re.search(r'<impl ([ui](?:8|16|32|64|128|size))>::(MAX|MIN|BITS)$', c[1])
+            if m:
+                w = M.INT_WIDTH[m.group(1)]
+                signed = m.group(1)[0] == 'i'
+                if m.group(2) == 'BITS':
+                    return S.bv(w, 32)
+                if m.group(2) == 'MAX':
+                    return S.bv((1 << (w - 1)) - 1 if signed else (1 << w) - 1, w)
+                return S.bv((1 << (w - 1)) if signed else 0, w)
             name = c[1].split('::')[-1]
             if name in self.crate.consts:
                 ty, cc = self.crate.consts[name]
